@@ -74,6 +74,32 @@ CLAIMED["C16"] = (
     "pin predicates read the owner-mutated fields with the right threshold; un-pin only when the counter drops from 1. Not decided: the numeric bound.",
     "Trusted: rustc nightly MIR; scc entry_sync bucket lock.")
 
+CLAIMED["C08"] = (
+    "def-use links on what shares a batch, await-completion ordering of batch creation, who-may-call rules on the physical commit, configuration-consistency table (WAL off => atomic flush)",
+    "Decides: a recomputed firewall's value goes into the batch holding its dirty marks; a session's epoch record/inputs/dirty marks share one batch; a query's batch "
+    "is created only after its executor and helpers returned; each backend commit is one store write outside loops and flush commits once; RocksDB commits without "
+    "WAL only with atomic_flush enabled in the options actually used to open the DB. Not decided: consistency of every crash prefix.",
+    "Trusted: rustc nightly MIR (both build shapes); atomicity of write_opt / OwnedWriteBatch::commit; RocksDB atomic_flush semantics.")
+CLAIMED["C11"] = (
+    "sibling agreement over the key-construction call sequences of 2 backends x (5 wide-column + 4 member + scan) sites, def-use links buffer->store, discriminant table extraction, length-prefix arithmetic shape",
+    "Decides: readers and writers of one column build identical key bytes by construction (same encoder calls, same generic arguments, same buffer handed to the store); "
+    "discriminant before/after the key exactly per layout; member keys = len-prefixed key ++ element; scans seek the same prefix with an upper bound derived from it "
+    "and decode elements at 8+len; per-column discriminants pairwise distinct; column names derive from the full StableTypeID. Not decided: byte-level bound "
+    "arithmetic, third-party store behaviour, reopen.",
+    "Trusted: rustc nightly MIR (both build shapes); self-delimiting encodings (C12.b); distinct StableTypeIDs (C14).")
+CLAIMED["C12"] = (
+    "wire-shape extraction: Encode/Decode MIR bodies -> finite automata over wire events, impl selection by type unification, determinisation + product search for language equivalence; primitive table by delegation closure",
+    "Decides: every Decode impl (119, incl. macro-generated and derived, smallvec/bitvec on) reads exactly the event language that the Encode impl selected for the "
+    "same type writes, including tag constants; repetitions are length-prefixed and variant alternations start with distinct constant tags; emit_X/read_X use the "
+    "same wire primitive for all 19 X. Not decided: varint/zig-zag arithmetic, value equality after decoding.",
+    "Trusted: rustc nightly MIR; ToOwned pairs encode alike (checked for str/String, [T]/Vec<T>, Path/PathBuf).")
+CLAIMED["C13"] = (
+    "framing rules (length before repetition, discriminant before alternation) and order-independence rules over every StableHash MIR body; forbidden-input who-may-call rule; float/integer/seeding def-use rules",
+    "Decides: every hashing loop is length-prefixed and every variant alternation discriminant-prefixed; for all unordered collections the outer hasher is untouched "
+    "inside the iteration, element hashes are combined only by integer wrapping_add and hashed once after the loop; no address/RandomState/capacity/type_name/clock/"
+    "thread-id input; NaN normalised, integers little-endian at the right width, seeded builder feeds only the seed, sub_hash copies the outer state. Not decided: collision resistance.",
+    "Trusted: rustc nightly MIR; mem::Discriminant representation; BTree iteration order.")
+
 NOT_YET = "check under construction in this round (DESIGN.md section 5 lists its clauses); not claimed until its rules are armed and self-tested"
 
 checks = []
